@@ -21,7 +21,7 @@
 import RdfModel.Props.C10Defs
 import RdfModel.Spec.GraphIso
 import RdfModel.Proofs.C10Write
-import RdfModel.Proofs.C10EncDoc
+import RdfModel.Proofs.C10EncMain
 namespace RdfModel.C10
 open RdfModel RdfModel.Desc RdfModel.JL RdfModel.JLEnc
 
@@ -104,9 +104,10 @@ def encoder_roundtrip_natural [DecidableEq β] (acyclic : List (DQuad β) → Pr
   `@context` the encoder writes is processed into exactly the declared prefixes, (b) that IRI expansion
   under that context inverts the encoder's three ways of writing an IRI — by proofs from decidable,
   LOCAL hypotheses (`ctxOK`: about the declared prefixes; `compactOK`/`relOK`: about one IRI). What is
-  still NOT proved is the document-level induction (c): that the node objects `buildResource` produces
-  evaluate to `denForest` of the exported forest, and that the forest validates (`structOK`, C17's
-  business); `encCert_of_natural` below is the statement, kept as a `def`. -/
+  now also proved is the document-level induction (c): the node objects `buildResource` produces evaluate
+  to `denForest` of the exported forest (`encCert_of_natural_holds`). What is still NOT proved: that the
+  forest validates (`structOK`, C17's business) — it remains a hypothesis of
+  `encoder_roundtrip_natural2_partial`. -/
 
 /-- every usable prefix list is duplicate free -/
 theorem usedPrefixes_nodup [DecidableEq β] (cfg : Cfg β) (d : List (DQuad β)) (ord ord2 : List (Term β)) :
@@ -240,15 +241,47 @@ theorem encoder_statement_read [DecidableEq β] (E : Enc) (bs : Option Str) (use
     exact Proofs.C10.evalItem_litObj hc lex dt lang hwf (hnn lex dt lang rfl)
       (fun h => cv dt (hdt lex dt lang rfl h)) g s p n
 
-/-- The statement that would close the encoder direction: the natural hypotheses imply the certificate.
-    NOT PROVED (see the section comment: (a) and (b) are proved above, the document-level induction (c)
-    is missing; its statement level is `encoder_statement_read`). The driver evaluates both sides on every encoder case of the harness; a case with all
-    hypotheses true and `cert` false is reported as a disagreement (`encode:natural2`). -/
+/-- **(c) The natural hypotheses imply the certificate** — the statement that closes the encoder
+    direction except for `structOK`. Hypotheses, all decidable or plain: the blank node label provider
+    never returns the empty string (the decidable `labelsOK cfg d` restricts this to the nodes of `d`; the
+    theorem is stated with the provider-wide form); the iteration orders of the two passes of
+    `ExportResources` only contain subjects of the default graph; `WFDataset`, `noNativeTyped`, `ctxOK`,
+    `locOK` (local conditions, see Props/C10Defs.lean) and `structOK` (the exported forest validates). -/
 def encCert_of_natural [DecidableEq β] : Prop :=
   ∀ (mode11 : Bool) (base : Option Str) (cfg : Cfg β) (d : List (DQuad β)) (ord ord2 : List (Term β)),
-    WFDataset d → noNativeTyped d = true → labelsOK cfg d = true → ctxOK cfg d ord ord2 = true →
+    (∀ b, cfg.label b ≠ []) → (∀ s ∈ ord, s ∈ defaultOrd d) → (∀ s ∈ ord2, s ∈ defaultOrd d) →
+    WFDataset d → noNativeTyped d = true → ctxOK cfg d ord ord2 = true →
     locOK cfg d ord ord2 = true → structOK cfg d ord ord2 = true →
     encCert mode11 base cfg d ord ord2 = true
+
+/-- PROVED: the document-level induction. The node objects `buildResource` produces — nested
+    AnonResources, statements grouped by member name, `@type` values and arrays, `{"@id": …}` references,
+    value objects — evaluate under the fragment semantics `toRdf`, in both processing modes and for every
+    document base, to exactly `denForest` of the exported forest; the document is well-formed JSON
+    (`Json.wf`); a single item is the document itself, several (or none) sit in `@graph`; every prefix a
+    compaction uses is declared in the `@context` (a)–(b). -/
+theorem encCert_of_natural_holds [DecidableEq β] : encCert_of_natural (β := β) :=
+  fun mode11 base cfg d ord ord2 hne hord hord2 hwf hnn hctx hloc hst =>
+    Proofs.C10.encCert_holds mode11 base cfg d ord ord2 hne hord hord2 hwf hnn hctx hloc hst
+
+/-- **Encoder round trip under natural hypotheses (partial).** For every configuration (base, prefixes,
+    buffering, injective never-empty labels), every well-formed dataset without natively written datatypes and
+    all iteration orders of the subject map: if the declared `@context` is usable (`ctxOK`), every IRI is
+    shortened invertibly (`locOK`) and the exported forest validates (`structOK`), then the fragment
+    semantics reads the encoder's document as a dataset isomorphic to the input.
+    GAP (why `_partial`): `structOK` is still a hypothesis — a decidable check on the export of the
+    resource-list builder alone (no JSON-LD involved; it implies that `d` is a default-graph dataset). It
+    is what C17's `flatten_export_repaired` expresses through `NewTriples`, but it is not derived from that
+    theorem here; `compactOK` / `relOK` inside `locOK` are local restatements of C13's `compact_expand` /
+    `relativize_sound` through the UTF-8 conversions and are not derived from C13 either. -/
+theorem encoder_roundtrip_natural2_partial [DecidableEq β] (mode11 : Bool) (base : Option Str) (cfg : Cfg β)
+    (hl : Function.Injective cfg.label) (hne : ∀ b, cfg.label b ≠ []) (d : List (DQuad β)) (ord ord2 : List (Term β))
+    (hord : ∀ s ∈ ord, s ∈ defaultOrd d) (hord2 : ∀ s ∈ ord2, s ∈ defaultOrd d)
+    (hwf : WFDataset d) (hnn : noNativeTyped d = true) (hctx : ctxOK cfg d ord ord2 = true)
+    (hloc : locOK cfg d ord ord2 = true) (hst : structOK cfg d ord ord2 = true) :
+    ∃ doc out, encode cfg d ord ord2 = some doc ∧ toRdf mode11 base doc = some out ∧ Spec.IsoQ out d :=
+  encoder_roundtrip_partial mode11 base cfg hl d ord ord2
+    (encCert_of_natural_holds mode11 base cfg d ord ord2 hne hord hord2 hwf hnn hctx hloc hst)
 
 /-! ### Non-vacuity: a dataset with a named graph, a shared blank node and a language-tagged literal -/
 
